@@ -67,7 +67,7 @@ Print Assumptions C02_synthetic_commit_nonzero.
 
 (* ---------------- non-vacuity ---------------- *)
 Definition c02_first : cev := EKeepalive 100 false false.
-Definition c02_it (prog : list N) (e : cev) : citer := mkIter false prog false e [] false [].
+Definition c02_it (prog : list N) (e : cev) : citer := mkIter false prog false e [] false [] false.
 
 (* open transaction, a COMMIT at 500 received earlier: the synthetic COMMIT is at 500 *)
 Example C02_synthetic_commit_open :
